@@ -25,8 +25,13 @@ import (
 
 // startReal starts the real binary on a pty and waits for its listen notice.
 func startReal(dir string, args ...string) (*ptyrun.Proc, string, error) {
+	return startRealEnv(dir, nil, args...)
+}
+
+// startRealEnv is startReal with additions to the environment.
+func startRealEnv(dir string, env []string, args ...string) (*ptyrun.Proc, string, error) {
 	cmd := exec.Command(binPath("curlrevshell"), args...)
-	cmd.Env = append(os.Environ(), "HOME="+dir, "CURLREVSHELL_LOG=")
+	cmd.Env = append(append(os.Environ(), "HOME="+dir, "CURLREVSHELL_LOG="), env...)
 	cmd.Dir = dir
 	p, err := ptyrun.Start(cmd)
 	if nil != err {
@@ -133,6 +138,52 @@ func c05RealBinary(r *ev.Result, base string) {
 	r.Add(n)
 	r.AddDistinct(n)
 	r.Set("real_binary_runs", n)
+}
+
+// c03RealColor: the real program with NO_COLOR set (and not) in its
+// environment, a shell whose output carries escape sequences of its own,
+// each within one chunk: the terminal receives them as sent.
+func c03RealColor(r *ev.Result, base string) {
+	n := 0
+	for _, env := range [][]string{{"NO_COLOR=1"}, {"NO_COLOR=1", "TERM=dumb"}, {"TERM=xterm-256color"}} {
+		func() {
+			dir, _ := os.MkdirTemp(base, "color-")
+			defer os.RemoveAll(dir)
+			p, addr, err := startRealEnv(dir, env, "-listen-address", "127.0.0.1:0", "-tls-certificate-cache", filepath.Join(dir, "c.txtar"))
+			if nil != err {
+				ev.Broken("%s", err)
+			}
+			defer p.Close()
+			ci, co, err := realShell(p, addr, "color", 0)
+			if nil != err {
+				ev.Broken("c03 colour session: %s", err)
+			}
+			defer ci.Close()
+			defer co.Close()
+			from := len(p.Output())
+			/* (Whole sequences only: the program redraws its prompt around every
+			write, so a sequence split over two chunks is interleaved with the
+			prompt's own on the unchanged tree as well.) */
+			pieces := []string{"one \x1b[31mRED\x1b[0m two\n", "three \x1b[32mGREEN\x1b[0m four\n", "END-OF-COLOURS\n"}
+			for _, c := range pieces {
+				co.Send(chunk(c))
+				time.Sleep(30 * time.Millisecond) /* Separate reads, usually. */
+			}
+			p.WaitFor(regexp.MustCompile(`END-OF-COLOURS`), from, 30*time.Second)
+			got := p.Output()[from:]
+			n++
+			for _, want := range []string{"one \x1b[31mRED\x1b[0m two", "three \x1b[32mGREEN\x1b[0m four"} {
+				if !strings.Contains(got, want) {
+					r.Violate(ev.Violation{Signature: "binary/shell-escape-sequences-changed", Kind: "c03term", Replay: map[string]string{"environment": strings.Join(env, ",")},
+						What: fmt.Sprintf("real binary with %v in its environment: the shell sent %q, the terminal did not receive %q but %q", env, pieces, want, trunc300(got))})
+					break
+				}
+			}
+		}()
+	}
+	r.Add(n)
+	r.AddDistinct(n)
+	r.Set("real_binary_colour_sessions", n)
 }
 
 // c11RealBinary: a session of the real binary with -log; the file must be a
